@@ -579,6 +579,23 @@ void caseHistory(vrt::Case& c)
               return desc + " ; " + call + " : d2/d" + vname + "2 = " + (o2.returned() ? str(d2) : o2.text()) + " analytic " + str(a2) + " (error " + str(d2 - a2) + ", allowed truncation " + str(t2.trunc) + " + rounding " + str(t2.round) + ")";
             });
       }
+      // The two-variable getter with the same variable twice is d2f/dv dv = the second derivative: the cross-derivative
+      // matrix of the three-point scheme has a diagonal, whatever the number of selected variables (a single one gives a
+      // 1 x 1 matrix).  Same analytic value and same allowance as the one-variable getter (one-sided next to a bound).
+      if (scheme == THREE && cross && !raised)
+      {
+        double dd = 0;
+        vrt::Outcome od = vrt::capture([&] { dd = nd->getSecondOrderDerivative(vname, vname); });
+        double a2 = poly.partial(unit(i, 2), cur);
+        Tol td = tolSecond(scheme, poly, cur, i, h, central[i]);
+        bool exactd = td.trunc == 0;
+        string ncls = sel.size() == 1 ? ":one-selected" : ":several-selected";
+        vrt::cover(sname + ":cross-diagonal:" + (exactd ? "exact" : "truncated") + (central[i] ? ":central" : ":next-to-bound") + ncls);
+        vrt::expect(od.returned() && std::isfinite(dd) && fabs(dd - a2) <= td.total(), exactd ? "derivative.cross-exact" : "derivative.cross-converges",
+            sname + ":same-variable-twice" + ncls + (central[i] ? ":central" : ":next-to-bound") + (inUpdate ? "" : ":variable-not-in-update"), [&] {
+              return desc + " ; " + call + " : d2/d" + vname + "d" + vname + " (two-variable getter) = " + (od.returned() ? str(dd) : od.text()) + " analytic d2/d" + vname + "2 " + str(a2) + " (error " + str(dd - a2) + ", allowed truncation " + str(td.trunc) + " + rounding " + str(td.round) + ")";
+            });
+      }
       if (scheme == THREE && cross && !raised)
         for (size_t j : sel)
         {
@@ -634,6 +651,15 @@ void caseHistory(vrt::Case& c)
           vrt::expect(ox.returned() && vrt::close(dx, ax, 1e-13, 0), "delegation.cross", dcls, [&] {
                 return desc + " ; " + call + " : d2/d" + vname + "dv" + str(j) + " with " + vname + " not selected = " + (ox.returned() ? str(dx) : ox.text()) + " but the wrapped function's analytic derivative is " + str(ax);
               });
+          // the same pair with the non-selected variable as the second argument (first argument selected)
+          if (isSel(j))
+          {
+            double dr = 0;
+            vrt::Outcome orv = vrt::capture([&] { dr = nd->getSecondOrderDerivative("v" + str(j), vname); });
+            vrt::expect(orv.returned() && vrt::close(dr, ax, 1e-13, 0), "delegation.cross", dcls + ":non-selected-second-argument", [&] {
+                  return desc + " ; " + call + " : d2/dv" + str(j) + "d" + vname + " with " + vname + " not selected = " + (orv.returned() ? str(dr) : orv.text()) + " but the wrapped function's analytic derivative is " + str(ax);
+                });
+          }
         }
       }
       // the wrapped function itself answers for all its variables again (flags restored)
@@ -758,6 +784,8 @@ int main(int argc, char** argv)
     "x8 / x16 next to a bound where the step may be halved), h = (1+|x|) * interval",
     "next to a bound (a central stencil does not fit) the one-sided remainder is accepted for first and second derivatives; cross derivatives there are not promised: the three-point scheme may raise a bpp::Exception, but must leave the function at the requested point",
     "five- and two-point schemes do not offer cross derivatives (documented): only transparency is judged with cross derivatives switched on",
+    "three points with cross derivatives on: the two-variable getter with one selected variable given twice is d2f/dv2 (the diagonal of the cross-derivative matrix, also a 1 x 1 matrix when a single variable is selected) "
+    "and is judged with the allowance of the second derivative; a pair with one non-selected variable in either argument position is delegated to a SecondOrderDerivable function",
     "the value of a derivative is judged for every selected variable after every update, also for variables the update did not name (the point is the whole parameter vector)",
     "the test double caches its analytic derivatives at parameter changes while the corresponding flag is enabled and refuses (bpp::Exception) while it is disabled, like the repository's PolynomialFunction1Der1",
     "ratio test: judged only when the error exceeds 50 x (rounding allowance + next term of the expansion); ratio within 25% of 2^order",
